@@ -5,6 +5,7 @@
 package stdpkg
 
 import (
+	"go/build"
 	"go/parser"
 	"go/token"
 	"os"
@@ -19,6 +20,7 @@ type Pkg struct {
 	Path       string
 	Name       string
 	Importable bool // not internal / vendor / cmd: importable from user code
+	Buildable  bool // go/build finds buildable Go files for the default context (GOOS/GOARCH/tags of this toolchain)
 }
 
 var (
@@ -80,6 +82,9 @@ func load() {
 				}
 			}
 			pk := Pkg{Path: path, Name: name, Importable: imp}
+			if bp, err := build.Default.ImportDir(p, 0); err == nil && len(bp.GoFiles)+len(bp.CgoFiles) > 0 {
+				pk.Buildable = true
+			}
 			all = append(all, pk)
 			byP[path] = pk
 			return nil
